@@ -140,7 +140,7 @@ def gen_case(rng, thorough):
             uniq.append(c)
     return {'names': names, 'rows': rows, 'comps': uniq, 'miss': rng.choice(MISS_CHOICES), 'thr': thr,
             'bound': rng.choice([0, 1, 2, 3, 5, 10, 30000, 30000]), 'hll': (list(rng.choice(SMALL_HLL)) if rng.random() < 0.3 else None),
-            'fams': fams}
+            'fams': fams, 'categorical': rng.random() < 0.15}
 
 
 # ----------------------------------------------------------------------------------------------------------------------
@@ -193,6 +193,9 @@ def run_impl(case, comp):
         for size in comp:
             df = pd.DataFrame(case['rows'][pos:pos + size], columns=names)
             pos += size
+            if case.get('categorical'):
+                # the batch as a pandas-categorical frame whose declared vocabulary has a value no row carries (a filtered frame)
+                df = pd.DataFrame({c: pd.Categorical(df[c], categories=sorted(set(df[c])) + ['zz-declared-but-absent']) for c in names})
             cov = cr.compute_coverage(df, args)
             for c in names:
                 covs[c].append(float(cov[c]))
@@ -274,7 +277,8 @@ def request(op, case, comp, p, W, tab):
 def short(case, comp):
     rows = case['rows']
     return (f'cols={case["names"]} rows={rows[:10]}{"…" if len(rows) > 10 else ""} (n={len(rows)}) batches={comp[:12]}{"…" if len(comp) > 12 else ""} '
-            f'missing={case["miss"]!r} thr={case["thr"]} bound={case["bound"]} hll={case.get("hll")}')
+            f'missing={case["miss"]!r} thr={case["thr"]} bound={case["bound"]} hll={case.get("hll")}' +
+            (' [batches handed over as pandas-categorical frames that declare one category no row carries]' if case.get('categorical') else ''))
 
 
 def one(case, comp):
